@@ -53,6 +53,13 @@ package snaps
 //@   ensures nSkip[t] == old(nSkip[t]) + 1
 
 // ---- events -----------------------------------------------------------------------------
+// ---- lock discipline of the in-memory registries (C06) ------------------------------------------------
+// A guarded field may be read only with the object's mutex held and written only with it held exclusively,
+// unless no test is running (quiescent: the state in which Clean runs from TestMain).
+//@ guard snaps.events.items by Mutex
+//@ guard snaps.syncRegistry.running,cleanup by Mutex
+//@ guard snaps.syncStandaloneRegistry.running,cleanup by Mutex
+//@ guard snaps.syncSlice.values by Mutex
 //@ func (*events).register(e, event)
 //@   mode ctl
 //@   requires e != nil && e.items != nil && held[e.Mutex] == 0
